@@ -556,6 +556,7 @@ fn extra(s: &Scn) -> Option<Result<(), String>> {
 
 fn dispatch(s: &Scn) -> Result<(), String> {
     if let Some(r) = extra(s) { return r; }
+    if s.m.get("zst").cloned().unwrap_or(0) == 1 { return run::<0>(s); }
     match s.u("esz") { 1 => run::<1>(s), 2 => run::<2>(s), 3 => run::<3>(s), 12 => run::<12>(s), 16 => run::<16>(s),
                        24 => run::<24>(s), 160 => run::<160>(s), _ => run::<8>(s) }
 }
